@@ -36,7 +36,8 @@ MIRRORS = [("python/eups/table.py", "Action.execute_envPrepend"), ("python/eups/
            ("python/eups/table.py", "Table.expandEupsVariables"), ("python/eups/Eups.py", "Eups.setAlias"),
            ("python/eups/Eups.py", "Eups.unsetAlias"), ("python/eups/Product.py", "Product.stackRoot"),
            ("python/eups/Product.py", "Product.extraProductDir"), ("python/eups/utils.py", "dirEnvNameFor"),
-           ("python/eups/Product.py", "Product.getTable")]       # Table._rewrite/_read (synonyms, envUnset rule) are C11's mirrors
+           ("python/eups/Product.py", "Product.getTable"),
+           ("python/eups/table.py", "Table._rewrite"), ("python/eups/table.py", "Table._read")]   # synonyms, envUnset rule
 
 DELIMS = [":", ":", ":", ":", ";", ",", " ", "|", "-", "::", ".", "+", "*", "?"]
 ATOMS = ["a", "b", "/x/y", "q", "c d", "/opt/p/1.0/bin", "zz", "$FOO/../lib", "$BAR"]   # brace-less $NAME is NOT a reference for eups
